@@ -65,6 +65,9 @@ def run(replay=None):
     rep.count('shapes_width', len(sents))
     extra, r2 = grammar.enumerate_shapes('disj')
     rep.add_tlc(r2)
+    mon, r3 = grammar.enumerate_shapes('mon')
+    rep.add_tlc(r3)
+    extra = extra + mon
     events, info = [], {}
     for s in sents + extra:
         toks, exp = render.substitute(s, lits=grammar.STD_LITS)
